@@ -275,6 +275,21 @@ func TestCheck(t *testing.T) {
 		}
 		lists = append(lists, []int{i, (i + 5) % len(kinds), i}, []int{i, i, i})
 	}
+	// the same provider once more, each result with an address list of its own
+	// (a provider is reachable at different addresses per context: extended
+	// providers): equally long and different, in every ordered pair of kinds
+	// that carry addresses, and as [A, B, A] / [A, B, C] sequences
+	nSameAddrs := len(lists)
+	for i := range kinds {
+		for j := range kinds {
+			if kinds[i].addrs > 0 && kinds[j].addrs > 0 {
+				lists = append(lists, []int{i, j})
+			}
+		}
+		if kinds[i].addrs > 0 {
+			lists = append(lists, []int{i, i, i}, []int{i, (i + 5) % len(kinds), i, i})
+		}
+	}
 	r.Bounds(map[string]any{"result_kinds": len(kinds), "result_lists": len(lists)})
 
 	// 1. read-back of every result list
@@ -291,6 +306,10 @@ func TestCheck(t *testing.T) {
 		if sameInstance {
 			key = "list-same-provider-and-values|" + strings.Join(names, ",")
 		}
+		ownAddrs := li >= nSameAddrs
+		if ownAddrs {
+			key = "list-same-provider-own-addresses-per-result|" + strings.Join(names, ",")
+		}
 		if !r.Mine(key) {
 			continue
 		}
@@ -300,7 +319,15 @@ func TestCheck(t *testing.T) {
 			if sameInstance {
 				j = 0
 			}
-			want = append(want, kinds[i].build(j))
+			pr := kinds[i].build(j)
+			if ownAddrs {
+				// position pos gets the address set pos%3 (so [A, B, A, A] ends
+				// with the first set again after two others)
+				for ai := range pr.Provider.Addrs {
+					pr.Provider.Addrs[ai] = multiaddr.StringCast(fmt.Sprintf("/ip4/10.%d.%d.1/tcp/80/http", len(want)%3, ai))
+				}
+			}
+			want = append(want, pr)
 		}
 		srv.results, srv.preferJSON, srv.panicked = want, true, ""
 		// (a) the find client
